@@ -566,6 +566,9 @@ def main():
     # C07: phase order of cli(), call sites of `random`, static hazards -> Generated/Phases.lean
     import extract_phases
     extract_phases.main()
+    # C19: how the generators use their graph objects -> Generated/GraphUses.lean
+    import extract_graph_uses
+    extract_graph_uses.main()
     text = emit()
     os.makedirs(os.path.dirname(OUT), exist_ok=True)
     if not (os.path.exists(OUT) and open(OUT, encoding="utf-8").read() == text):
